@@ -91,7 +91,7 @@ func (fr *frame) get(key ssa.Value) value {
 			return r
 		}
 		if key.Pkg != nil && ShouldSkipInit(key.Pkg.Pkg.Path()) && key.Name() != "init$guard" {
-			if initTouchedGlobals(key.Pkg)[key] && !zeroOKGlobals[key.String()] && fr.fn.Pkg != key.Pkg {
+			if initTouchedGlobals(key.Pkg)[key] && !zeroOKGlobals[key.String()] {
 				panic(unsupported{"read of global " + key.String() + " whose package initialisation is not interpreted"})
 			}
 		}
